@@ -16,7 +16,7 @@ PROPERTIES = {
               'replaced/closed connection is a no-op. Linearisation of concurrent callers is the RwLock (assumed).',
         unverified=['interleavings of threads (reduced to sequential histories by the lock, assumed)',
                     'broadcast channel lag: a subscriber slower than the channel capacity receives Lagged',
-                    'ActivePeersInner::peers (keys().copied().collect()) is an assumed contract in Verus; bounded Kani stand-in in the thorough tier',
+                    'ActivePeersInner::peers: its body is verified with the pipeline keys().copied().collect() rendered as an assumed generic std function (shape rule X13: every key exactly once); the real pipeline is executed by enum_cm',
                     'quinn stable ids are unique per endpoint (assumption A-sid, precondition fresh(c) of the invariant lemma)',
                     'that InboundRequestHandler::start reaches its tail whenever the connection ends (liveness)'],
         assumptions=[CONC, 'tokio broadcast: send appends, a receiver created under the lock sees exactly the later events'],
